@@ -151,6 +151,8 @@ impl ToTokens for Documentation {
     let doc_lines: Vec<TokenStream> = self
       .lines
       .iter()
+      // rustc rejects a lone carriage return inside a doc comment: it ends the doc line like a newline
+      .flat_map(|line| line.split('\r'))
       .map(|line| {
         let line = format!(" {line}");
         if self.top_level {
